@@ -41,7 +41,10 @@ def concrete_sim_value(prog, values):
                 if len(s):
                     ctx.set(s, values.get(n, 0))
             got["o"] = ctx.get(o)
-            got["e"] = ctx.get(e)
+            try:
+                got["e"] = ctx.get(e)
+            except Exception as ex:  # reported, not swallowed: the caller compares "e" with "o"
+                got["e"] = f"raised {type(ex).__name__}: {ex}"
         sim.add_testbench(tb)
         sim.run()
     return got
